@@ -467,6 +467,7 @@ func runC15(c *Check) {
 		}
 	}
 	c.Ob("R15.5", "storeEDS returns the Put error", okAll && n > 0, p.Pos(storeEDS.Pos()), "every return after a Put* returns that Put*'s error (a failed store is not reported as stored)")
+	c15Window(c, "R15.3")
 }
 
 func recvOfObj(o *types.Func) string {
